@@ -63,7 +63,7 @@ func (g *gen) valueEdit(c *sqlh.ColDesc, v sqlh.GV) sqlh.GV {
 		}
 		return g.Other(v)
 	case 4:
-		return g.Retype(v)
+		return g.retypeOrCustom(v)
 	default:
 		return g.Other(v)
 	}
